@@ -144,7 +144,7 @@ theorem labR_pre_attr (n : Name) (l : List (Path × Leaf)) :
 
 theorem labR_pre_good (s : Step) (hs : Good s.chars) (l : List (Path × Leaf)) :
     (l.map (pre s)).map labR = l.map (lab s.chars) := by
-  simp only [List.map_map, Function.comp_def, lab, labR, pre, render, Path.chars]
+  simp only [List.map_map, Function.comp_def, labR, pre, render, Path.chars]
   apply List.map_congr_left
   intro pl _
   rw [trimDot_good (good_append _ hs)]
@@ -265,8 +265,8 @@ theorem memAttrs_of_lookup (as : List (Name × Tree)) (n : Name) (p : Path) (l :
     simp only [leavesAttrs, List.mem_append]
     by_cases hnm : n = m
     · simp [hnm] at h1
-      subst h1; subst hnm
-      exact Or.inl (List.mem_map.2 ⟨(p, l), mem_of_get t p l h2, rfl⟩)
+      rw [← h1] at h2
+      exact Or.inl (List.mem_map.2 ⟨(p, l), mem_of_get t p l h2, by simp [pre, hnm]⟩)
     · simp [hnm] at h1
       exact Or.inr (memAttrs_of_lookup r n p l t' h1 h2)
 theorem memItems_of_lookup (items : List (Option Tree)) (j i : Int) (p : Path) (l : Leaf) (t' : Tree)
@@ -278,9 +278,13 @@ theorem memItems_of_lookup (items : List (Option Tree)) (j i : Int) (p : Path) (
     simp only [lookupItem] at h1
     by_cases hij : i = j
     · simp [hij] at h1
-      subst h1; subst hij
-      simp only [leavesItems, List.mem_append]
-      exact Or.inl (List.mem_map.2 ⟨(p, l), mem_of_get t' p l h2, rfl⟩)
+      cases a with
+      | none => cases h1
+      | some t =>
+        have h1' : t = t' := by simpa using h1
+        rw [← h1'] at h2
+        simp only [leavesItems, List.mem_append]
+        exact Or.inl (List.mem_map.2 ⟨(p, l), mem_of_get t p l h2, by simp [pre, hij]⟩)
     · simp [hij] at h1
       have ih := memItems_of_lookup r (j + 1) i p l t' h1 h2
       cases a with
@@ -297,10 +301,821 @@ theorem memEntries_of_lookup (es : List (Key × Tree)) (k : Key) (p : Path) (l :
     simp only [leavesEntries, List.mem_append]
     by_cases hnm : k = m
     · simp [hnm] at h1
-      subst h1; subst hnm
-      exact Or.inl (List.mem_map.2 ⟨(p, l), mem_of_get t p l h2, rfl⟩)
+      rw [← h1] at h2
+      exact Or.inl (List.mem_map.2 ⟨(p, l), mem_of_get t p l h2, by simp [pre, hnm]⟩)
     · simp [hnm] at h1
       exact Or.inr (memEntries_of_lookup r k p l t' h1 h2)
 end
+
+
+theorem mem_map_pre {s : Step} {ls : List (Path × Leaf)} {p : Path} {l : Leaf} :
+    (p, l) ∈ ls.map (pre s) ↔ ∃ p', p = s :: p' ∧ (p', l) ∈ ls := by
+  simp only [List.mem_map, pre]
+  constructor
+  · rintro ⟨⟨p', l'⟩, hm, he⟩
+    simp only [Prod.mk.injEq] at he
+    exact ⟨p', he.1.symm, he.2 ▸ hm⟩
+  · rintro ⟨p', rfl, hm⟩
+    exact ⟨(p', l), hm, rfl⟩
+
+theorem leavesAttrs_head (as : List (Name × Tree)) (p : Path) (l : Leaf) (h : (p, l) ∈ leavesAttrs as) :
+    ∃ n p', p = .attr n :: p' ∧ n ∈ as.map Prod.fst := by
+  induction as with
+  | nil => simp [leavesAttrs] at h
+  | cons a r ih =>
+    obtain ⟨m, t⟩ := a
+    simp only [leavesAttrs, List.mem_append] at h
+    rcases h with h | h
+    · obtain ⟨p', rfl, _⟩ := mem_map_pre.1 h
+      exact ⟨m, p', rfl, by simp⟩
+    · obtain ⟨n, p', hp, hn⟩ := ih h
+      exact ⟨n, p', hp, by simp [hn]⟩
+
+theorem leavesEntries_head (es : List (Key × Tree)) (p : Path) (l : Leaf) (h : (p, l) ∈ leavesEntries es) :
+    ∃ k p', p = .key k :: p' ∧ k ∈ es.map Prod.fst := by
+  induction es with
+  | nil => simp [leavesEntries] at h
+  | cons a r ih =>
+    obtain ⟨m, t⟩ := a
+    simp only [leavesEntries, List.mem_append] at h
+    rcases h with h | h
+    · obtain ⟨p', rfl, _⟩ := mem_map_pre.1 h
+      exact ⟨m, p', rfl, by simp⟩
+    · obtain ⟨n, p', hp, hn⟩ := ih h
+      exact ⟨n, p', hp, by simp [hn]⟩
+
+theorem leavesItems_head (items : List (Option Tree)) (j : Int) (p : Path) (l : Leaf)
+    (h : (p, l) ∈ leavesItems items j) : ∃ i p', p = .idx i :: p' ∧ j ≤ i := by
+  induction items generalizing j with
+  | nil => simp [leavesItems] at h
+  | cons a r ih =>
+    cases a with
+    | none =>
+      simp only [leavesItems] at h
+      obtain ⟨i, p', hp, hi⟩ := ih (j + 1) h
+      exact ⟨i, p', hp, by omega⟩
+    | some t =>
+      simp only [leavesItems, List.mem_append] at h
+      rcases h with h | h
+      · obtain ⟨p', rfl, _⟩ := mem_map_pre.1 h
+        exact ⟨j, p', rfl, by omega⟩
+      · obtain ⟨i, p', hp, hi⟩ := ih (j + 1) h
+        exact ⟨i, p', hp, by omega⟩
+
+theorem lookupAttr_mem {n : Name} {as : List (Name × Tree)} {t : Tree} (h : lookupAttr n as = some t) :
+    n ∈ as.map Prod.fst := by
+  induction as with
+  | nil => simp [lookupAttr] at h
+  | cons a r ih =>
+    obtain ⟨m, u⟩ := a
+    simp only [lookupAttr] at h
+    by_cases hnm : n = m
+    · simp [hnm]
+    · simp [hnm] at h; simp [ih h]
+
+theorem lookupKey_mem {k : Key} {es : List (Key × Tree)} {t : Tree} (h : lookupKey k es = some t) :
+    k ∈ es.map Prod.fst := by
+  induction es with
+  | nil => simp [lookupKey] at h
+  | cons a r ih =>
+    obtain ⟨m, u⟩ := a
+    simp only [lookupKey] at h
+    by_cases hnm : k = m
+    · simp [hnm]
+    · simp [hnm] at h; simp [ih h]
+
+mutual
+theorem get_of_mem (t : Tree) (hw : wf t = true) (p : Path) (l : Leaf) (h : (p, l) ∈ leaves t) :
+    subtree t p = some (.leaf l) := by
+  cases t with
+  | leaf l' => simp [leaves] at h; simp [h, subtree]
+  | tup as =>
+    simp only [wf, Bool.and_eq_true] at hw
+    simp only [leaves] at h
+    obtain ⟨n, p', t', rfl, h1, h2⟩ := getAttrs_of_mem as hw.1 hw.2 p l h
+    simp [subtree, h1, h2]
+  | arr off items =>
+    simp only [wf] at hw
+    simp only [leaves] at h
+    obtain ⟨i, p', t', rfl, h1, h2, _⟩ := getItems_of_mem items off hw p l h
+    simp [subtree, h1, h2]
+  | dict es =>
+    simp only [wf, Bool.and_eq_true] at hw
+    simp only [leaves] at h
+    obtain ⟨k, p', t', rfl, h1, h2⟩ := getEntries_of_mem es hw.1 hw.2 p l h
+    simp [subtree, h1, h2]
+theorem getAttrs_of_mem (as : List (Name × Tree)) (hd : distinct (as.map Prod.fst) = true)
+    (hw : wfAttrs as = true) (p : Path) (l : Leaf) (h : (p, l) ∈ leavesAttrs as) :
+    ∃ n p' t, p = .attr n :: p' ∧ lookupAttr n as = some t ∧ subtree t p' = some (.leaf l) := by
+  cases as with
+  | nil => simp [leavesAttrs] at h
+  | cons a r =>
+    obtain ⟨m, t⟩ := a
+    simp only [wfAttrs, Bool.and_eq_true] at hw
+    simp only [List.map_cons, distinct_cons] at hd
+    simp only [leavesAttrs, List.mem_append] at h
+    rcases h with h | h
+    · obtain ⟨p', rfl, hm⟩ := mem_map_pre.1 h
+      exact ⟨m, p', t, rfl, by simp [lookupAttr], get_of_mem t hw.1 p' l hm⟩
+    · obtain ⟨n, p', t', hp, h1, h2⟩ := getAttrs_of_mem r hd.2 hw.2 p l h
+      have hne : n ≠ m := fun e => hd.1 (e ▸ lookupAttr_mem h1)
+      exact ⟨n, p', t', hp, by simp [lookupAttr, hne, h1], h2⟩
+theorem getItems_of_mem (items : List (Option Tree)) (j : Int) (hw : wfItems items = true)
+    (p : Path) (l : Leaf) (h : (p, l) ∈ leavesItems items j) :
+    ∃ i p' t, p = .idx i :: p' ∧ lookupItem i items j = some t ∧ subtree t p' = some (.leaf l) ∧ j ≤ i := by
+  cases items with
+  | nil => simp [leavesItems] at h
+  | cons a r =>
+    cases a with
+    | none =>
+      simp only [wfItems] at hw
+      simp only [leavesItems] at h
+      obtain ⟨i, p', t', hp, h1, h2, hi⟩ := getItems_of_mem r (j + 1) hw p l h
+      have hne : i ≠ j := by omega
+      exact ⟨i, p', t', hp, by simp [lookupItem, hne, h1], h2, by omega⟩
+    | some t =>
+      simp only [wfItems, Bool.and_eq_true] at hw
+      simp only [leavesItems, List.mem_append] at h
+      rcases h with h | h
+      · obtain ⟨p', rfl, hm⟩ := mem_map_pre.1 h
+        exact ⟨j, p', t, rfl, by simp [lookupItem], get_of_mem t hw.1 p' l hm, by omega⟩
+      · obtain ⟨i, p', t', hp, h1, h2, hi⟩ := getItems_of_mem r (j + 1) hw.2 p l h
+        have hne : i ≠ j := by omega
+        exact ⟨i, p', t', hp, by simp [lookupItem, hne, h1], h2, by omega⟩
+theorem getEntries_of_mem (es : List (Key × Tree)) (hd : distinct (es.map Prod.fst) = true)
+    (hw : wfEntries es = true) (p : Path) (l : Leaf) (h : (p, l) ∈ leavesEntries es) :
+    ∃ k p' t, p = .key k :: p' ∧ lookupKey k es = some t ∧ subtree t p' = some (.leaf l) := by
+  cases es with
+  | nil => simp [leavesEntries] at h
+  | cons a r =>
+    obtain ⟨m, t⟩ := a
+    simp only [wfEntries, Bool.and_eq_true] at hw
+    simp only [List.map_cons, distinct_cons] at hd
+    simp only [leavesEntries, List.mem_append] at h
+    rcases h with h | h
+    · obtain ⟨p', rfl, hm⟩ := mem_map_pre.1 h
+      exact ⟨m, p', t, rfl, by simp [lookupKey], get_of_mem t hw.1 p' l hm⟩
+    · obtain ⟨n, p', t', hp, h1, h2⟩ := getEntries_of_mem r hd.2 hw.2 p l h
+      have hne : n ≠ m := fun e => hd.1 (e ▸ lookupKey_mem h1)
+      exact ⟨n, p', t', hp, by simp [lookupKey, hne, h1], h2⟩
+end
+
+
+theorem paths_pre (s : Step) (ls : List (Path × Leaf)) :
+    (ls.map (pre s)).map Prod.fst = (ls.map Prod.fst).map (s :: ·) := by
+  simp [List.map_map, Function.comp_def, pre]
+
+theorem nodup_cons_map (s : Step) (ps : List Path) (h : ps.Nodup) : (ps.map (s :: ·)).Nodup := by
+  unfold List.Nodup at *
+  exact List.Pairwise.map _ (fun a b hab e => hab (by simpa using e)) h
+
+theorem mem_paths {ls : List (Path × Leaf)} {p : Path} (h : p ∈ ls.map Prod.fst) : ∃ l, (p, l) ∈ ls := by
+  obtain ⟨⟨p', l⟩, hm, rfl⟩ := List.mem_map.1 h
+  exact ⟨l, hm⟩
+
+mutual
+theorem nodup_leaves (t : Tree) (hw : wf t = true) : ((leaves t).map Prod.fst).Nodup := by
+  cases t with
+  | leaf l => simp [leaves]
+  | tup as =>
+    simp only [wf, Bool.and_eq_true] at hw
+    simpa [leaves] using nodup_leavesAttrs as hw.1 hw.2
+  | arr off items =>
+    simp only [wf] at hw
+    simpa [leaves] using nodup_leavesItems items off hw
+  | dict es =>
+    simp only [wf, Bool.and_eq_true] at hw
+    simpa [leaves] using nodup_leavesEntries es hw.1 hw.2
+theorem nodup_leavesAttrs (as : List (Name × Tree)) (hd : distinct (as.map Prod.fst) = true)
+    (hw : wfAttrs as = true) : ((leavesAttrs as).map Prod.fst).Nodup := by
+  cases as with
+  | nil => simp [leavesAttrs]
+  | cons a r =>
+    obtain ⟨m, t⟩ := a
+    simp only [wfAttrs, Bool.and_eq_true] at hw
+    simp only [List.map_cons, distinct_cons] at hd
+    rw [leavesAttrs, List.map_append, paths_pre]
+    refine List.nodup_append.2 ⟨nodup_cons_map _ _ (nodup_leaves t hw.1), nodup_leavesAttrs r hd.2 hw.2, ?_⟩
+    intro a ha b hb e
+    obtain ⟨q, _, rfl⟩ := List.mem_map.1 ha
+    obtain ⟨l, hl⟩ := mem_paths hb
+    obtain ⟨n, p', hp, hn⟩ := leavesAttrs_head r b l hl
+    rw [hp] at e
+    simp only [List.cons.injEq, Step.attr.injEq] at e
+    exact hd.1 (e.1 ▸ hn)
+theorem nodup_leavesItems (items : List (Option Tree)) (j : Int) (hw : wfItems items = true) :
+    ((leavesItems items j).map Prod.fst).Nodup := by
+  cases items with
+  | nil => simp [leavesItems]
+  | cons a r =>
+    cases a with
+    | none =>
+      simp only [wfItems] at hw
+      rw [leavesItems]
+      exact nodup_leavesItems r (j + 1) hw
+    | some t =>
+      simp only [wfItems, Bool.and_eq_true] at hw
+      rw [leavesItems, List.map_append, paths_pre]
+      refine List.nodup_append.2 ⟨nodup_cons_map _ _ (nodup_leaves t hw.1), nodup_leavesItems r (j + 1) hw.2, ?_⟩
+      intro a ha b hb e
+      obtain ⟨q, _, rfl⟩ := List.mem_map.1 ha
+      obtain ⟨l, hl⟩ := mem_paths hb
+      obtain ⟨i, p', hp, hi⟩ := leavesItems_head r (j + 1) b l hl
+      rw [hp] at e
+      simp only [List.cons.injEq, Step.idx.injEq] at e
+      omega
+theorem nodup_leavesEntries (es : List (Key × Tree)) (hd : distinct (es.map Prod.fst) = true)
+    (hw : wfEntries es = true) : ((leavesEntries es).map Prod.fst).Nodup := by
+  cases es with
+  | nil => simp [leavesEntries]
+  | cons a r =>
+    obtain ⟨m, t⟩ := a
+    simp only [wfEntries, Bool.and_eq_true] at hw
+    simp only [List.map_cons, distinct_cons] at hd
+    rw [leavesEntries, List.map_append, paths_pre]
+    refine List.nodup_append.2 ⟨nodup_cons_map _ _ (nodup_leaves t hw.1), nodup_leavesEntries r hd.2 hw.2, ?_⟩
+    intro a ha b hb e
+    obtain ⟨q, _, rfl⟩ := List.mem_map.1 ha
+    obtain ⟨l, hl⟩ := mem_paths hb
+    obtain ⟨n, p', hp, hn⟩ := leavesEntries_head r b l hl
+    rw [hp] at e
+    simp only [List.cons.injEq, Step.key.injEq] at e
+    exact hd.1 (e.1 ▸ hn)
+end
+
+
+/-! ### getTestFiles finds exactly the test files under the target -/
+
+mutual
+theorem walk_iff (n : Node) (path : Name) (f : TestFile) : f ∈ Impl.walk n path ↔ Under n path f := by
+  cases n with
+  | file nm c =>
+    simp only [Impl.walk]
+    constructor
+    · intro h
+      by_cases ht : isTestPath path = true
+      · simp [ht] at h; subst h; exact Under.file ht
+      · simp [ht] at h
+    · intro h
+      cases h with
+      | file ht => simp [ht]
+  | dir nm ch =>
+    simp only [Impl.walk]
+    constructor
+    · intro h
+      by_cases hh : isHidden nm = true
+      · simp [hh] at h
+      · simp [hh] at h
+        obtain ⟨c, hc, hu⟩ := (walkAll_iff ch path f).1 h
+        exact Under.dir (by simpa using hh) hc hu
+    · intro h
+      cases h with
+      | dir hh hc hu =>
+        simp [hh]
+        exact (walkAll_iff ch path f).2 ⟨_, hc, hu⟩
+theorem walkAll_iff (ch : List Node) (path : Name) (f : TestFile) :
+    f ∈ Impl.walkAll ch path ↔ ∃ c ∈ ch, Under c (joinPath path c.name) f := by
+  cases ch with
+  | nil => simp [Impl.walkAll]
+  | cons c r =>
+    simp only [Impl.walkAll, List.mem_append, List.mem_cons, walk_iff c, walkAll_iff r]
+    constructor
+    · rintro (h | ⟨d, hd, hu⟩)
+      · exact ⟨c, Or.inl rfl, h⟩
+      · exact ⟨d, Or.inr hd, hu⟩
+    · rintro ⟨d, (rfl | hd), hu⟩
+      · exact Or.inl hu
+      · exact Or.inr ⟨d, hd, hu⟩
+end
+
+
+/-! ### calcStats -/
+
+def cnt (o : Outcome) (rs : List Result) : Nat := (rs.filter (fun r => r.outcome = o)).length
+
+theorem cnt_cons (o : Outcome) (r : Result) (rs : List Result) :
+    cnt o (r :: rs) = (if r.outcome = o then 1 else 0) + cnt o rs := by
+  unfold cnt
+  by_cases h : r.outcome = o <;> simp [h] <;> omega
+
+theorem countResults_fields (s : Stats) (rs : List Result) :
+    (Impl.countResults s rs).total = s.total + rs.length ∧
+    (Impl.countResults s rs).passed = s.passed + cnt .passed rs ∧
+    (Impl.countResults s rs).failed = s.failed + cnt .failed rs ∧
+    (Impl.countResults s rs).invalid = s.invalid + cnt .invalid rs ∧
+    (Impl.countResults s rs).ignored = s.ignored + cnt .ignored rs := by
+  induction rs generalizing s with
+  | nil => simp [Impl.countResults, cnt]
+  | cons r rs ih =>
+    obtain ⟨h1, h2, h3, h4, h5⟩ := ih (Impl.bump s r.outcome)
+    simp only [Impl.countResults, cnt_cons, List.length_cons]
+    rw [h1, h2, h3, h4, h5]
+    cases r.outcome <;> simp [Impl.bump] <;> omega
+
+theorem countOutcome_cons (o : Outcome) (f : FileRun) (fs : List FileRun) :
+    countOutcome o (f :: fs) = cnt o f.results + countOutcome o fs := by
+  simp [countOutcome, cnt]
+
+theorem countFiles_fields (s : Stats) (fs : List FileRun) :
+    (Impl.countFiles s fs).total = s.total + (fs.map (fun f => f.results.length)).sum ∧
+    (Impl.countFiles s fs).passed = s.passed + countOutcome .passed fs ∧
+    (Impl.countFiles s fs).failed = s.failed + countOutcome .failed fs ∧
+    (Impl.countFiles s fs).invalid = s.invalid + countOutcome .invalid fs ∧
+    (Impl.countFiles s fs).ignored = s.ignored + countOutcome .ignored fs := by
+  induction fs generalizing s with
+  | nil => simp [Impl.countFiles, countOutcome]
+  | cons f fs ih =>
+    obtain ⟨h1, h2, h3, h4, h5⟩ := ih (Impl.countResults s f.results)
+    obtain ⟨g1, g2, g3, g4, g5⟩ := countResults_fields s f.results
+    simp only [Impl.countFiles, countOutcome_cons, List.map_cons, List.sum_cons]
+    rw [h1, h2, h3, h4, h5, g1, g2, g3, g4, g5]
+    omega
+
+theorem cnt_pos (o : Outcome) (rs : List Result) : cnt o rs > 0 ↔ ∃ r ∈ rs, r.outcome = o := by
+  induction rs with
+  | nil => simp [cnt]
+  | cons r rs ih =>
+    rw [cnt_cons]
+    by_cases h : r.outcome = o
+    · simp [h]; omega
+    · simp [h, ih]
+
+theorem countOutcome_pos (o : Outcome) (fs : List FileRun) :
+    countOutcome o fs > 0 ↔ ∃ f ∈ fs, ∃ r ∈ f.results, r.outcome = o := by
+  induction fs with
+  | nil => simp [countOutcome]
+  | cons f fs ih =>
+    rw [countOutcome_cons]
+    constructor
+    · intro h
+      by_cases h1 : cnt o f.results > 0
+      · obtain ⟨r, hr, ho⟩ := (cnt_pos o _).1 h1
+        exact ⟨f, by simp, r, hr, ho⟩
+      · obtain ⟨g, hg, r, hr, ho⟩ := ih.1 (by omega)
+        exact ⟨g, by simp [hg], r, hr, ho⟩
+    · rintro ⟨g, hg, r, hr, ho⟩
+      rcases List.mem_cons.1 hg with rfl | hg
+      · have := (cnt_pos o _).2 ⟨r, hr, ho⟩; omega
+      · have := ih.2 ⟨g, hg, r, hr, ho⟩; omega
+
+theorem stats_ext (a b : Stats) (h0 : a.runFailed = b.runFailed) (h1 : a.total = b.total)
+    (h2 : a.invalid = b.invalid) (h3 : a.passed = b.passed) (h4 : a.ignored = b.ignored)
+    (h5 : a.failed = b.failed) : a = b := by
+  cases a; cases b; simp_all
+
+theorem outcome_bad_iff (o : Outcome) : (o != .passed && o != .ignored) = true ↔ o = .failed ∨ o = .invalid := by
+  cases o <;> simp
+
+theorem calcStats_runFailed (fs : List FileRun) :
+    (Impl.calcStats fs).runFailed = true ↔ ∃ f ∈ fs, ∃ r ∈ f.results, r.outcome = .failed ∨ r.outcome = .invalid := by
+  obtain ⟨_, _, h3, h4, _⟩ := countFiles_fields {} fs
+  simp only [Impl.calcStats, Bool.or_eq_true, decide_eq_true_eq, h3, h4]
+  have e1 := countOutcome_pos .failed fs
+  have e2 := countOutcome_pos .invalid fs
+  constructor
+  · rintro (h | h)
+    · obtain ⟨f, hf, r, hr, ho⟩ := e1.1 (by simpa using h)
+      exact ⟨f, hf, r, hr, Or.inl ho⟩
+    · obtain ⟨f, hf, r, hr, ho⟩ := e2.1 (by simpa using h)
+      exact ⟨f, hf, r, hr, Or.inr ho⟩
+  · rintro ⟨f, hf, r, hr, ho | ho⟩
+    · have := e1.2 ⟨f, hf, r, hr, ho⟩; left; simpa using this
+    · have := e2.2 ⟨f, hf, r, hr, ho⟩; right; simpa using this
+
+theorem calcStats_eq_spec (fs : List FileRun) : Impl.calcStats fs = Spec.stats fs := by
+  obtain ⟨h1, h2, h3, h4, h5⟩ := countFiles_fields {} fs
+  apply stats_ext
+  · rw [Bool.eq_iff_iff, calcStats_runFailed]
+    simp only [Spec.stats, List.any_eq_true, outcome_bad_iff]
+  · simpa [Impl.calcStats, Spec.stats] using h1
+  · simpa [Impl.calcStats, Spec.stats] using h4
+  · simpa [Impl.calcStats, Spec.stats] using h2
+  · simpa [Impl.calcStats, Spec.stats] using h5
+  · simpa [Impl.calcStats, Spec.stats] using h3
+
+
+/-! ### RunExpr, runFile, the loop of RunTests -/
+
+theorem outcomeOf_some {l : Leaf} {o : Outcome} (h : Impl.outcomeOf l = some o) : o = Spec.outcome l := by
+  cases l with
+  | genericSet s => cases s <;> simp_all [Impl.outcomeOf, Impl.isLiteralTrue, Impl.isLiteralFalse, Spec.outcome,
+      Leaf.isTrue, Leaf.isFalse]
+  | _ => simp_all [Impl.outcomeOf, Impl.isLiteralTrue, Impl.isLiteralFalse, Spec.outcome, Leaf.isTrue, Leaf.isFalse]
+
+theorem outcomeOf_none_iff (l : Leaf) : Impl.outcomeOf l = none ↔ l = .genericSet .unit := by
+  cases l with
+  | genericSet s => cases s <;> simp [Impl.outcomeOf, Impl.isLiteralTrue, Impl.isLiteralFalse]
+  | _ => simp [Impl.outcomeOf, Impl.isLiteralTrue, Impl.isLiteralFalse]
+
+theorem outcomeOf_eq {l : Leaf} (h : l ≠ .genericSet .unit) : Impl.outcomeOf l = some (Spec.outcome l) := by
+  cases ho : Impl.outcomeOf l with
+  | none => exact absurd ((outcomeOf_none_iff l).1 ho) h
+  | some o => rw [outcomeOf_some ho]
+
+theorem outcome_passed_iff (l : Leaf) (h : l ≠ .genericSet .unit) : Spec.outcome l = .passed ↔ l = .trueSet := by
+  cases l with
+  | genericSet s => cases s <;> simp_all [Spec.outcome, Leaf.isTrue, Leaf.isFalse]
+  | _ => simp [Spec.outcome, Leaf.isTrue, Leaf.isFalse]
+
+theorem outcome_ne_ignored (l : Leaf) : Spec.outcome l ≠ .ignored := by
+  unfold Spec.outcome
+  split
+  · simp
+  · split <;> simp
+
+def labO (x : Name × Leaf) : Result := ⟨x.1, Spec.outcome x.2⟩
+
+theorem collect_some {ls : List (Name × Leaf)} {rs : List Result} (h : Impl.collect ls = some rs) :
+    rs = ls.map labO ∧ ∀ x ∈ ls, x.2 ≠ .genericSet .unit := by
+  induction ls generalizing rs with
+  | nil => simp [Impl.collect] at h; simp [h]
+  | cons x r ih =>
+    obtain ⟨n, l⟩ := x
+    simp only [Impl.collect] at h
+    cases ho : Impl.outcomeOf l with
+    | none => simp [ho] at h
+    | some o =>
+      cases hc : Impl.collect r with
+      | none => simp [ho, hc] at h
+      | some rs' =>
+        simp [ho, hc] at h
+        obtain ⟨e, hu⟩ := ih hc
+        have hl : l ≠ .genericSet .unit := fun e => by simp [(outcomeOf_none_iff l).2 e] at ho
+        refine ⟨?_, ?_⟩
+        · rw [← h, e, outcomeOf_some ho]; simp [labO]
+        · intro y hy
+          rcases List.mem_cons.1 hy with rfl | hy
+          · exact hl
+          · exact hu y hy
+
+theorem collect_eq {ls : List (Name × Leaf)} (h : ∀ x ∈ ls, x.2 ≠ .genericSet .unit) :
+    Impl.collect ls = some (ls.map labO) := by
+  induction ls with
+  | nil => simp [Impl.collect]
+  | cons x r ih =>
+    obtain ⟨n, l⟩ := x
+    have hl : l ≠ .genericSet .unit := h (n, l) (by simp)
+    simp [Impl.collect, outcomeOf_eq hl, ih (fun y hy => h y (by simp [hy])), labO]
+
+/-- no leaf is a `GenericSet` equal to `{()}` (which package rel never builds) -/
+def noUnit (t : Tree) : Prop := ∀ pl ∈ leaves t, pl.2 ≠ .genericSet .unit
+
+theorem foreachLeaf_noUnit (t : Tree) (p : Name) :
+    (∀ x ∈ Impl.foreachLeaf t p, x.2 ≠ .genericSet .unit) ↔ noUnit t := by
+  have e := foreachLeaf_snd t p
+  unfold noUnit
+  constructor
+  · intro h pl hpl
+    have : pl.2 ∈ (leaves t).map Prod.snd := List.mem_map.2 ⟨pl, hpl, rfl⟩
+    rw [← e] at this
+    obtain ⟨x, hx, hx2⟩ := List.mem_map.1 this
+    exact hx2 ▸ h x hx
+  · intro h x hx
+    have : x.2 ∈ (Impl.foreachLeaf t p).map Prod.snd := List.mem_map.2 ⟨x, hx, rfl⟩
+    rw [e] at this
+    obtain ⟨pl, hpl, hpl2⟩ := List.mem_map.1 this
+    exact hpl2 ▸ h pl hpl
+
+/-- the results RunExpr produces for a tree (when it neither fails nor panics) -/
+def resultsOf (t : Tree) : List Result := (Impl.foreachLeaf t []).map labO
+
+theorem resultsOf_outcomes (t : Tree) :
+    (resultsOf t).map (·.outcome) = (leaves t).map (fun pl => Spec.outcome pl.2) := by
+  have e := congrArg (List.map Spec.outcome) (foreachLeaf_snd t [])
+  simpa [resultsOf, labO, List.map_map, Function.comp_def] using e
+
+theorem runExpr_ok_iff (t : Tree) (rs : List Result) :
+    Impl.runExpr t = .ok rs ↔ t.evaluates = true ∧ noUnit t ∧ rs = resultsOf t := by
+  unfold Impl.runExpr
+  by_cases he : t.evaluates = true
+  · simp only [he, Bool.not_true, Bool.false_eq_true, if_false, true_and]
+    cases hc : Impl.collect (Impl.foreachLeaf t []) with
+    | none =>
+      simp only [reduceCtorEq, false_iff, not_and]
+      intro hn
+      rw [collect_eq ((foreachLeaf_noUnit t []).2 hn)] at hc
+      cases hc
+    | some rs' =>
+      obtain ⟨e, hu⟩ := collect_some hc
+      simp only [Except.ok.injEq]
+      constructor
+      · intro h; subst h; exact ⟨(foreachLeaf_noUnit t []).1 hu, e⟩
+      · rintro ⟨_, h⟩; rw [h, e]; rfl
+  · simp [he]
+
+theorem runExpr_error_of_fails (t : Tree) (he : t.evaluates = false) : Impl.runExpr t = .error (.file []) := by
+  simp [Impl.runExpr, he]
+
+theorem runExpr_crash_iff (t : Tree) : Impl.runExpr t = .error .crash ↔ t.evaluates = true ∧ ¬ noUnit t := by
+  unfold Impl.runExpr
+  by_cases he : t.evaluates = true
+  · simp only [he, Bool.not_true, Bool.false_eq_true, if_false, true_and]
+    cases hc : Impl.collect (Impl.foreachLeaf t []) with
+    | none =>
+      simp only [true_iff]
+      intro hn
+      rw [collect_eq ((foreachLeaf_noUnit t []).2 hn)] at hc
+      cases hc
+    | some rs' =>
+      obtain ⟨_, hu⟩ := collect_some hc
+      simp only [reduceCtorEq, false_iff, Classical.not_not]
+      exact (foreachLeaf_noUnit t []).1 hu
+  · simp [he]
+
+/-- the file compiles, evaluates, and contains no `GenericSet` equal to `{()}` -/
+def GoodFile (f : TestFile) : Prop := ∃ t, f.content = some t ∧ t.evaluates = true ∧ noUnit t
+
+def runOf (f : TestFile) : FileRun :=
+  match f.content with
+  | some t => ⟨f.path, resultsOf t⟩
+  | none => ⟨f.path, []⟩
+
+theorem runFile_ok_iff (f : TestFile) (fr : FileRun) :
+    Impl.runFile f = .ok fr ↔ GoodFile f ∧ fr = runOf f := by
+  unfold Impl.runFile GoodFile runOf
+  cases hc : f.content with
+  | none => simp
+  | some t =>
+    simp only [Option.some.injEq, exists_eq_left']
+    cases hr : Impl.runExpr t with
+    | error e =>
+      have : ¬ (t.evaluates = true ∧ noUnit t) := by
+        intro ⟨h1, h2⟩
+        have := (runExpr_ok_iff t (resultsOf t)).2 ⟨h1, h2, rfl⟩
+        rw [hr] at this; cases this
+      cases e <;> simp [this]
+    | ok rs =>
+      obtain ⟨h1, h2, h3⟩ := (runExpr_ok_iff t rs).1 hr
+      simp only [Except.ok.injEq, h1, h2, true_and, and_self]
+      rw [h3]
+      exact eq_comm
+
+theorem runFiles_ok_iff (fs : List TestFile) (runs : List FileRun) :
+    Impl.runFiles fs = .ok runs ↔ (∀ f ∈ fs, GoodFile f) ∧ runs = fs.map runOf := by
+  induction fs generalizing runs with
+  | nil => simp [Impl.runFiles, eq_comm]
+  | cons f r ih =>
+    simp only [Impl.runFiles]
+    cases hf : Impl.runFile f with
+    | error e =>
+      have : ¬ GoodFile f := fun hg => by
+        have := (runFile_ok_iff f (runOf f)).2 ⟨hg, rfl⟩
+        rw [hf] at this; cases this
+      simp [this]
+    | ok fr =>
+      obtain ⟨hg, hfr⟩ := (runFile_ok_iff f fr).1 hf
+      cases hr : Impl.runFiles r with
+      | error e =>
+        have : ¬ ∀ g ∈ r, GoodFile g := fun hall => by
+          have := (ih (r.map runOf)).2 ⟨hall, rfl⟩
+          rw [hr] at this; cases this
+        simp [this]
+      | ok frs =>
+        obtain ⟨hall, hfrs⟩ := (ih frs).1 hr
+        simp only [Except.ok.injEq, List.mem_cons, forall_eq_or_imp, hg, true_and, List.map_cons]
+        constructor
+        · intro h; exact ⟨hall, by rw [← h, hfr, hfrs]⟩
+        · rintro ⟨_, h⟩; rw [h, hfr, hfrs]
+
+theorem runTests_reported_iff (w : World) (path : Name) (runs : List FileRun) (st : Stats) :
+    Impl.runTests w path = .reported runs st ↔
+      ∃ n, w.lstat (Impl.targetPath w path) = some n ∧ Impl.walk n (Impl.targetPath w path) ≠ [] ∧
+        Impl.runFiles (Impl.walk n (Impl.targetPath w path)) = .ok runs ∧ st = Impl.calcStats runs := by
+  unfold Impl.runTests Impl.getTestFiles
+  cases hl : w.lstat (Impl.targetPath w path) with
+  | none => simp
+  | some n =>
+    simp only [Option.some.injEq, exists_eq_left']
+    by_cases he : Impl.walk n (Impl.targetPath w path) = []
+    · simp [he]
+    · simp only [List.isEmpty_iff, he, if_false, ne_eq, not_false_eq_true, true_and]
+      cases hr : Impl.runFiles (Impl.walk n (Impl.targetPath w path)) with
+      | error e => simp
+      | ok rs =>
+        simp only [Run.reported.injEq, Except.ok.injEq]
+        constructor
+        · rintro ⟨rfl, rfl⟩; exact ⟨rfl, rfl⟩
+        · rintro ⟨rfl, rfl⟩; exact ⟨rfl, rfl⟩
+
+
+/-! ### on clean trees the transliteration computes the specified run -/
+
+/-- plain attribute names and canonical leaf representations -/
+def Clean (t : Tree) : Prop := namesOk t = true ∧ ∀ pl ∈ leaves t, pl.2.canonical = true
+
+theorem noUnit_of_clean {t : Tree} (h : Clean t) : noUnit t := by
+  intro pl hpl e
+  have := h.2 pl hpl
+  rw [e] at this
+  cases this
+
+theorem resultsOf_clean {t : Tree} (h : namesOk t = true) (path : Name) :
+    resultsOf t = (Spec.fileRun path t).results := by
+  simp [resultsOf, Spec.fileRun, foreachLeaf_root t h, List.map_map, Function.comp_def, labO, labR]
+
+theorem runFile_clean (f : TestFile) (h : ∀ t, f.content = some t → Clean t) :
+    Impl.runFile f = match f.content with
+      | none => .error (.file f.path)
+      | some t => if t.evaluates then .ok (Spec.fileRun f.path t) else .error (.file f.path) := by
+  cases hc : f.content with
+  | none => simp [Impl.runFile, hc]
+  | some t =>
+    have hcl := h t hc
+    by_cases he : t.evaluates = true
+    · have := (runFile_ok_iff f (runOf f)).2 ⟨⟨t, hc, he, noUnit_of_clean hcl⟩, rfl⟩
+      rw [this]
+      simp only [he, if_true, runOf, hc, resultsOf_clean hcl.1 f.path]
+      rfl
+    · have he' : t.evaluates = false := by simpa using he
+      simp [Impl.runFile, hc, runExpr_error_of_fails t he', he']
+
+theorem runFiles_clean (fs : List TestFile) (h : ∀ f ∈ fs, ∀ t, f.content = some t → Clean t) :
+    Impl.runFiles fs = match Spec.firstBad fs with
+      | some p => .error (.file p)
+      | none => .ok (Spec.runsOf fs) := by
+  induction fs with
+  | nil => simp [Impl.runFiles, Spec.firstBad, Spec.runsOf]
+  | cons f r ih =>
+    have ih' := ih (fun g hg => h g (by simp [hg]))
+    rw [Impl.runFiles, runFile_clean f (h f (by simp))]
+    cases hc : f.content with
+    | none => simp [Spec.firstBad, hc]
+    | some t =>
+      by_cases he : t.evaluates = true
+      · simp only [he, if_true, Spec.firstBad, hc, Spec.runsOf]
+        rw [ih']
+        cases Spec.firstBad r <;> simp
+      · have he' : t.evaluates = false := by simpa using he
+        simp [Spec.firstBad, hc, he']
+
+
+/-! ### the verdict -/
+
+theorem outcome_of_result {t : Tree} {r : Result} (h : r ∈ resultsOf t) :
+    ∃ pl ∈ leaves t, r.outcome = Spec.outcome pl.2 := by
+  have : r.outcome ∈ (resultsOf t).map (·.outcome) := List.mem_map.2 ⟨r, h, rfl⟩
+  rw [resultsOf_outcomes] at this
+  obtain ⟨pl, hpl, e⟩ := List.mem_map.1 this
+  exact ⟨pl, hpl, e.symm⟩
+
+theorem result_of_leaf {t : Tree} {pl : Path × Leaf} (h : pl ∈ leaves t) :
+    ∃ r ∈ resultsOf t, r.outcome = Spec.outcome pl.2 := by
+  have : Spec.outcome pl.2 ∈ (leaves t).map (fun pl => Spec.outcome pl.2) := List.mem_map.2 ⟨pl, h, rfl⟩
+  rw [← resultsOf_outcomes] at this
+  obtain ⟨r, hr, e⟩ := List.mem_map.1 this
+  exact ⟨r, hr, e⟩
+
+theorem evaluates_iff (t : Tree) : t.evaluates = true ↔ ∀ pl ∈ leaves t, pl.2 ≠ .fails := by
+  simp [Tree.evaluates, List.all_eq_true]
+
+/-- the list of files passes: all compile and every leaf is the literal true -/
+def AllTrue (fs : List TestFile) : Prop :=
+  ∀ f ∈ fs, ∃ t, f.content = some t ∧ ∀ pl ∈ leaves t, pl.2 = .trueSet
+
+theorem files_pass_iff (fs : List TestFile) :
+    (∃ runs, Impl.runFiles fs = .ok runs ∧ (Impl.calcStats runs).runFailed = false) ↔ AllTrue fs := by
+  constructor
+  · rintro ⟨runs, hr, hs⟩ f hf
+    obtain ⟨hall, rfl⟩ := (runFiles_ok_iff fs runs).1 hr
+    obtain ⟨t, hc, _, hnu⟩ := hall f hf
+    refine ⟨t, hc, fun pl hpl => ?_⟩
+    obtain ⟨r, hr', ho⟩ := result_of_leaf hpl
+    have hmem : runOf f ∈ fs.map runOf := List.mem_map.2 ⟨f, hf, rfl⟩
+    have hres : r ∈ (runOf f).results := by simpa [runOf, hc] using hr'
+    have hnot : ¬ (r.outcome = .failed ∨ r.outcome = .invalid) := fun hbad => by
+      have := (calcStats_runFailed (fs.map runOf)).2 ⟨_, hmem, r, hres, hbad⟩
+      rw [hs] at this; cases this
+    have hni := outcome_ne_ignored pl.2
+    rw [← ho] at hni
+    have hp : r.outcome = .passed := by
+      cases hro : r.outcome <;> simp_all
+    rw [ho] at hp
+    exact (outcome_passed_iff pl.2 (hnu pl hpl)).1 hp
+  · intro h
+    have hgood : ∀ f ∈ fs, GoodFile f := fun f hf => by
+      obtain ⟨t, hc, hall⟩ := h f hf
+      refine ⟨t, hc, (evaluates_iff t).2 (fun pl hpl e => ?_), fun pl hpl e => ?_⟩
+      · rw [hall pl hpl] at e; cases e
+      · rw [hall pl hpl] at e; cases e
+    refine ⟨fs.map runOf, (runFiles_ok_iff fs _).2 ⟨hgood, rfl⟩, ?_⟩
+    cases hrf : (Impl.calcStats (fs.map runOf)).runFailed with
+    | false => rfl
+    | true =>
+      obtain ⟨fr, hfr, r, hr, hbad⟩ := (calcStats_runFailed _).1 hrf
+      obtain ⟨f, hf, rfl⟩ := List.mem_map.1 hfr
+      obtain ⟨t, hc, hall⟩ := h f hf
+      have hres : r ∈ resultsOf t := by simpa [runOf, hc] using hr
+      obtain ⟨pl, hpl, ho⟩ := outcome_of_result hres
+      rw [hall pl hpl] at ho
+      rw [ho] at hbad
+      simp [Spec.outcome, Leaf.isTrue] at hbad
+
+theorem passed_iff (w : World) (path : Name) :
+    (Impl.runTests w path).passed = true ↔
+      ∃ n, w.lstat (Impl.targetPath w path) = some n ∧ Impl.walk n (Impl.targetPath w path) ≠ [] ∧
+        AllTrue (Impl.walk n (Impl.targetPath w path)) := by
+  constructor
+  · intro h
+    cases hr : Impl.runTests w path with
+    | error e => rw [hr] at h; cases h
+    | reported runs st =>
+      rw [hr] at h
+      obtain ⟨n, hl, hne, hruns, hst⟩ := (runTests_reported_iff w path runs st).1 hr
+      refine ⟨n, hl, hne, (files_pass_iff _).1 ⟨runs, hruns, ?_⟩⟩
+      rw [← hst]
+      simpa [Run.passed] using h
+  · rintro ⟨n, hl, hne, hall⟩
+    obtain ⟨runs, hruns, hs⟩ := (files_pass_iff _).2 hall
+    have := (runTests_reported_iff w path runs (Impl.calcStats runs)).2 ⟨n, hl, hne, hruns, rfl⟩
+    rw [this]
+    simp [Run.passed, hs]
+
+/-! ### the counts are the numbers of leaves -/
+
+theorem cnt_eq (o : Outcome) (rs : List Result) :
+    cnt o rs = ((rs.map (·.outcome)).filter (fun x => x = o)).length := by
+  induction rs with
+  | nil => simp [cnt]
+  | cons r rs ih =>
+    rw [cnt_cons, ih]
+    by_cases h : r.outcome = o <;> simp [h] <;> omega
+
+theorem runOf_outcomes {f : TestFile} (h : GoodFile f) :
+    (runOf f).results.map (·.outcome) = Spec.leafOutcomes f := by
+  obtain ⟨t, hc, _, _⟩ := h
+  simp [runOf, Spec.leafOutcomes, hc, resultsOf_outcomes]
+
+theorem countOutcome_runs (o : Outcome) (fs : List TestFile) (h : ∀ f ∈ fs, GoodFile f) :
+    countOutcome o (fs.map runOf) = (((fs.map Spec.leafOutcomes).flatten).filter (fun x => x = o)).length := by
+  induction fs with
+  | nil => simp [countOutcome]
+  | cons f r ih =>
+    rw [List.map_cons, countOutcome_cons, ih (fun g hg => h g (by simp [hg])), cnt_eq,
+      runOf_outcomes (h f (by simp))]
+    simp
+
+theorem total_runs (fs : List TestFile) (h : ∀ f ∈ fs, GoodFile f) :
+    ((fs.map runOf).map (fun f => f.results.length)).sum = ((fs.map Spec.leafOutcomes).flatten).length := by
+  induction fs with
+  | nil => simp
+  | cons f r ih =>
+    have e := congrArg List.length (runOf_outcomes (h f (by simp)))
+    simp only [List.length_map] at e
+    simp only [List.map_cons, List.sum_cons, List.flatten_cons, List.length_append]
+    rw [ih (fun g hg => h g (by simp [hg])), e]
+
+theorem no_ignored (l : List Outcome) (h : ∀ x ∈ l, x ≠ Outcome.ignored) :
+    (l.filter (fun x => x = Outcome.ignored)).length = 0 := by
+  rw [List.length_eq_zero_iff, List.filter_eq_nil_iff]
+  intro x hx
+  simpa using h x hx
+
+theorem leafOutcomes_ne_ignored (fs : List TestFile) :
+    ∀ x ∈ (fs.map Spec.leafOutcomes).flatten, x ≠ Outcome.ignored := by
+  intro x hx
+  obtain ⟨l, hl, hxl⟩ := List.mem_flatten.1 hx
+  obtain ⟨f, _, rfl⟩ := List.mem_map.1 hl
+  unfold Spec.leafOutcomes at hxl
+  cases hc : f.content with
+  | none => simp [hc] at hxl
+  | some t =>
+    simp only [hc, List.mem_map] at hxl
+    obtain ⟨pl, _, rfl⟩ := hxl
+    exact outcome_ne_ignored pl.2
+
+/-! ### the panic of isLiteralTrue is unreachable on canonical values -/
+
+theorem runFiles_crash {fs : List TestFile} (h : Impl.runFiles fs = .error .crash) :
+    ∃ f ∈ fs, ∃ t, f.content = some t ∧ ¬ noUnit t := by
+  induction fs with
+  | nil => simp [Impl.runFiles] at h
+  | cons f r ih =>
+    simp only [Impl.runFiles] at h
+    cases hf : Impl.runFile f with
+    | error e =>
+      rw [hf] at h
+      simp only [Except.error.injEq] at h
+      subst h
+      unfold Impl.runFile at hf
+      cases hc : f.content with
+      | none => simp [hc] at hf
+      | some t =>
+        simp only [hc] at hf
+        cases hr : Impl.runExpr t with
+        | ok rs => simp [hr] at hf
+        | error e =>
+          cases e with
+          | crash => exact ⟨f, by simp, t, hc, ((runExpr_crash_iff t).1 hr).2⟩
+          | _ => simp [hr] at hf
+    | ok fr =>
+      rw [hf] at h
+      cases hr : Impl.runFiles r with
+      | error e =>
+        rw [hr] at h
+        simp only [Except.error.injEq] at h
+        subst h
+        obtain ⟨g, hg, t, hc, hn⟩ := ih hr
+        exact ⟨g, by simp [hg], t, hc, hn⟩
+      | ok frs => rw [hr] at h; cases h
 
 end Arrai.C20
